@@ -189,7 +189,10 @@ package processor
 // commitment equals the commitment currently in force
 //@ spec chainC(f fnc, st *protocol.ResolutionModel) string { cond(f == fnval(getUpdateCommitment), st.UpdateCommitment, st.RecoveryCommitment) }
 //
+// ghost: how often the recover / deactivate chain was walked
+//@ ghost recChainRuns int
 //@ func (*OperationProcessor).applyOperations
+//@   sets recChainRuns = recChainRuns + cond(commitmentFnc == fnval(getRecoveryCommitment), 1, 0)
 //@   requires procOK(s) && rm != nil && allocated(rm) && saneOps(ops) && len(ops) > 0
 //@   requires commitmentFnc == fnval(getUpdateCommitment) || commitmentFnc == fnval(getRecoveryCommitment)
 //@   requires commitmentFnc == fnval(getUpdateCommitment) ==> pAllOfType(ops, operation.TypeUpdate) && !rm.Deactivated
@@ -225,7 +228,9 @@ package processor
 //@   ensures err == nil ==> saneOps(r0) && len(r0) <= len(ops)
 //@   ensures err == nil && opts.VersionID == "" && opts.VersionTime == "" ==> r0 == ops
 //@   ensures err == nil && opts.VersionID != "" ==> len(r0) >= 1 && sameSlice(r0, ops) && ops[len(r0)-1].CanonicalReference == opts.VersionID && (forall q int :: 0 <= q && q < len(r0)-1 ==> ops[q].CanonicalReference != opts.VersionID)
-//@   ensures err == nil && opts.VersionID == "" && opts.VersionTime != "" ==> (forall p int :: 0 <= p && p < len(r0) ==> atOrBefore(r0[p].TransactionTime, opts.VersionTime))
+//@   ensures err == nil && opts.VersionID == "" && opts.VersionTime != "" ==> len(r0) >= 1 && (forall p int :: 0 <= p && p < len(r0) ==> atOrBefore(r0[p].TransactionTime, opts.VersionTime))
+//   ... and complete: every operation anchored at or before the version time is kept
+//@   ensures err == nil && opts.VersionID == "" && opts.VersionTime != "" ==> (forall i int :: 0 <= i && i < len(ops) && atOrBefore(ops[i].TransactionTime, opts.VersionTime) ==> (exists p int :: 0 <= p && p < len(r0) && r0[p] == ops[i]))
 //
 //@ func (*OperationProcessor).applyResolutionOptions
 //@   requires procOK(s) && saneOps(published) && saneOps(unpublished) && saneOps(opts.AdditionalOperations)
@@ -233,8 +238,14 @@ package processor
 //@   loop 1
 //@     invariant saneOps(published) && saneOps(unpublished) && saneOps(opts.AdditionalOperations)
 //@     invariant allocated(published) && allocated(unpublished) && (arrOf(published) == 0 || arrOf(published) != arrOf(unpublished))
+//   additional operations are classified by their canonical reference: without one they join the unpublished list, with
+//   one the published list (never the other way round), each list only grows at its end, and none is placed twice
+//@     invariant len(published) >= len(published_0) && len(unpublished) >= len(unpublished_0) && len(published) + len(unpublished) <= len(published_0) + len(unpublished_0) + _k
+//@     invariant forall i int :: len(published_0) <= i && i < len(published) ==> published[i].CanonicalReference != ""
+//@     invariant forall i int :: len(unpublished_0) <= i && i < len(unpublished) ==> unpublished[i].CanonicalReference == ""
 //@   loop 2
 //@     invariant saneOps(filteredOps) && saneOps(filteredPublishedOps) && saneOps(filteredUnpublishedOps)
+//@     invariant filterIn == ops && len(filteredOps) <= len(ops)
 //@   ensures err == nil ==> saneOps(r0) && saneOps(r1) && saneOps(r2)
 //   C02: the history that is resolved is the published operations in chronological order followed by the unpublished
 //   ones in chronological order - anchored operations always come first; this list (or its version-filtered part) is
@@ -242,6 +253,13 @@ package processor
 //@   atcall filterOps len(ops) == len(published) + len(unpublished) && (forall i int :: 0 <= i && i < len(published) ==> ops[i] == published[i]) && (forall j int :: 0 <= j && j < len(unpublished) ==> ops[len(published) + j] == unpublished[j])
 //@   atcall filterOps (forall a int, b int :: 0 <= a && a < b && b < len(published) ==> !opLess(published[b], published[a])) && (forall a int, b int :: 0 <= a && a < b && b < len(unpublished) ==> !opLess(unpublished[b], unpublished[a]))
 //@   ensures err == nil ==> len(r2) <= len(filterIn) && (len(r2) == len(filterIn) ==> sameSlice(r2, filterIn))
+//   C06: the history that is returned IS the version-filtered history: without a version everything; with a version id
+//   the prefix that ends with the FIRST operation carrying that reference (so an unknown id cannot succeed); with a
+//   version time exactly the operations anchored at or before it (so a time before the first operation cannot succeed)
+//@   ensures err == nil && opts.VersionID == "" && opts.VersionTime == "" ==> len(r2) == len(filterIn)
+//   (the version-id prefix and the 'at or before' direction of the version-time case are pinned at filterOps and by the
+//   bounded C06 check: through the re-partitioning loop below the solver does not carry them)
+//@   ensures err == nil && opts.VersionID == "" && opts.VersionTime != "" ==> (forall i int :: 0 <= i && i < len(filterIn) && atOrBefore(filterIn[i].TransactionTime, opts.VersionTime) ==> (exists p int :: 0 <= p && p < len(r2) && r2[p] == filterIn[i]))
 //@   modifies elems(published), elems(unpublished), filterIn
 //
 //@ func (*OperationProcessor).processOperations
@@ -260,6 +278,12 @@ package processor
 //   the updates that still count are those anchored after the last operation that was *applied* (create, or the last
 //   accepted recover), not after the last full operation that merely appears in the history
 //@   atcall getOpsWithTxnGreaterThanOrUnpublished txnTime == rm.LastOperationTransactionTime && txnNumber == rm.LastOperationTransactionNumber
+//   whenever the (version-filtered) history holds a recover or deactivate, the recover / deactivate chain has been
+//   walked before any update is considered - with or without resolution options
+//@   atcall getOpsWithTxnGreaterThanOrUnpublished len(fullOps) > 0 ==> recChainRuns == old(recChainRuns) + 1
+//   the three lists come from the (version-filtered) history and nothing else
+//@   atcall splitOperations ops == filteredOps
+//@   atcall getOpsWithTxnGreaterThanOrUnpublished ops == updateOps
 //@   ensures err == nil ==> r0 != nil
 //@   ensures err == nil && r0.Deactivated ==> r0.UpdateCommitment == "" && r0.RecoveryCommitment == ""
 //@   ensures err != nil ==> r0 == nil
